@@ -55,6 +55,7 @@ type adapter[S any] struct {
 	nonzeroLast                bool // the sampler rejects a zero last value
 	refusesUnqualifiedAdditive bool // ConvertShareToAdditive documents / implements a qualification check
 	missingShareKey            string
+	mspBased                   bool // shares come from the induced span programme (KW, Feldman, Pedersen)
 	deal                       func(x *engine.X, secret *big.Int, rnd []*big.Int, label string) (*dealing[S], bool)
 	dealRandom                 func(x *engine.X, label string) (*dealing[S], bool)
 	reconstruct                func(sh []S) (*big.Int, error)
@@ -73,6 +74,7 @@ type dealOpts struct {
 	fullCross bool  // secret x randomness cross product on the "ord" assignment
 	secrets   []int // secret indices used when not crossing (default: mid)
 	linear    bool
+	noCross   func(catalog.Entry) bool // entries visited with the mid secret and seeded randomness only
 }
 
 func guard(x *engine.X, key, what string, f func()) (ok bool) {
@@ -103,7 +105,9 @@ func dealBody[S any, F algebra.PrimeFieldElement[F]](c fctx[F], scheme string, c
 		p, ids := pc.e.P, pc.a.IDs
 		secrets := c.secrets()
 		si, ri := 3, randSeeded
-		if opt.fullCross && pc.a.Name == "ord" {
+		if opt.noCross != nil && opt.noCross(pc.e) {
+			// one secret, one randomness
+		} else if opt.fullCross && pc.a.Name == "ord" {
 			si = x.Choose("secret", len(secrets))
 			ri = x.Choose("rand", numRand)
 		} else if len(opt.secrets) > 0 {
@@ -123,22 +127,28 @@ func dealBody[S any, F algebra.PrimeFieldElement[F]](c fctx[F], scheme string, c
 			return
 		}
 		full := p.Full()
+		dummies := dummyParties(p)
 		var nq, nwit, nskip, unrefused int
 		for a := uint64(0); a <= full; a++ {
 			want := p.Qualified(a)
 			sub := catalog.Subset(ids, a)
 			x.Case(fmt.Sprintf("%s/%d", key, a))
+			if miss := d.missing(a); miss != 0 {
+				// a member of the set received no share at all
+				if want {
+					fk := ad.missingShareKey
+					if p.Kind == policy.CNF && miss&^dummies == 0 && ad.mspBased {
+						fk = keyCNFDummy
+					}
+					x.Failf(fk, "%s: the qualified set %v cannot reconstruct: shareholder(s) %v received no share", key, sub, catalog.Subset(ids, miss))
+				}
+				continue
+			}
 			if ad.can != nil {
 				var got bool
 				if guard(x, scheme+"/panic/canreconstruct", key, func() { got = ad.can(sub) }) && got != want {
 					x.Failf(scheme+"/canreconstruct", "%s: CanReconstruct(%v) = %v, the policy says %v", key, sub, got, want)
 				}
-			}
-			if miss := d.missing(a); miss != 0 {
-				if want {
-					x.Failf(ad.missingShareKey, "%s: the qualified set %v cannot reconstruct: shareholder(s) %v received no share", key, sub, catalog.Subset(ids, miss))
-				}
-				continue
 			}
 			var got *big.Int
 			var err error
@@ -163,7 +173,11 @@ func dealBody[S any, F algebra.PrimeFieldElement[F]](c fctx[F], scheme string, c
 				}
 				sum, nerr := new(big.Int), 0
 				var firstErr error
-				guard(x, scheme+"/panic/toadditive", key, func() {
+				pk := scheme + "/panic/toadditive"
+				if a&dummies != 0 {
+					pk += "/dummy-party" // a member that belongs to every maximal unqualified set
+				}
+				completed := guard(x, pk, key, func() {
 					for _, party := range policy.Members(a) {
 						id, v, err := ad.toAdditive(d.shares[party], quorum)
 						if err != nil {
@@ -180,6 +194,7 @@ func dealBody[S any, F algebra.PrimeFieldElement[F]](c fctx[F], scheme string, c
 					}
 				})
 				switch {
+				case !completed:
 				case want && nerr > 0:
 					x.Failf(scheme+"/toadditive-refused", "%s: ConvertShareToAdditive over the qualified quorum %v failed for %d member(s)%s", key, sub, nerr, errLine(firstErr))
 				case want && sum.Cmp(s) != 0:
@@ -279,7 +294,11 @@ func dealBody[S any, F algebra.PrimeFieldElement[F]](c fctx[F], scheme string, c
 					var got *big.Int
 					var err error
 					if guard(x, scheme+"/panic/reconstruct", key, func() { got, err = ad.reconstruct(sc.pick(a, true)) }) && (err != nil || got.Cmp(want) != 0) {
-						x.Failf(scheme+"/linear-scalarmul", "%s: ScalarMul by scalar #%d of the dealing of secret #%d does not reconstruct to the multiple over %v%s", key, ki, si, catalog.Subset(ids, a), errLine(err))
+						fk := scheme + "/linear-scalarmul"
+						if k.Sign() == 0 {
+							fk += "/k=0"
+						}
+						x.Failf(fk, "%s: ScalarMul by scalar #%d of the dealing of secret #%d does not reconstruct to the multiple over %v%s", key, ki, si, catalog.Subset(ids, a), errLine(err))
 					}
 				}
 			}
